@@ -72,7 +72,15 @@ class CobaContext_meta(type):
 
                     cls._resolve_and_expand_paths(file_config, str(search_path))
 
-                    config.update(file_config)
+                    experiment = file_config.get('experiment')
+                    if isinstance(experiment,dict) and "maxtasksperchild" in experiment:
+                        experiment["maxchunksperchild"] = experiment.pop("maxtasksperchild") #the old name of the setting
+
+                    for key,value in file_config.items():
+                        if key in ['api_keys','experiment'] and isinstance(value,dict) and isinstance(config.get(key),dict):
+                            config[key].update(value) #a later file adds to / overrides the keys of an earlier one
+                        else:
+                            config[key] = value
 
                 except Exception as e:
                     raise CobaException(f"{str(e).strip('.')} in {potential_coba_config}.")
